@@ -131,4 +131,69 @@ theorem good_sumFixed {e : Schema → Value → Option Item} {d : Schema → Ite
         .variant pos vs', ?_, by simp [Value.strip, ss], fun x => by rw [nn (fun s hs => x (n, fs) hmem s hs)]⟩
       simp [decSumFixed, mkArray, minHead_major, mkUInt_uint n hn64, hn, hfv, dd]
 
+theorem findVariant_none {α} : ∀ (vs : List (Nat × α)) (k x : Nat),
+    (vs.all (fun v => v.1 != x)) = true → findVariant (x : Int) k vs = none := by
+  intro vs
+  induction vs with
+  | nil => intro _ _ _; rfl
+  | cons q vs ih =>
+    intro k x h
+    obtain ⟨m, b⟩ := q
+    simp only [List.all_cons, Bool.and_eq_true, bne_iff_ne, ne_eq] at h
+    have hne : ¬ ((m : Int) = (x : Int)) := by
+      intro e
+      exact h.1 (by omega)
+    simp only [findVariant, hne, if_false]
+    exact ih (k + 1) x h.2
+
+theorem good_sumOther {e : Schema → Value → Option Item} {d : Schema → Item → Option Value}
+    {K : Schema → List Ty} {nr : Schema → Prop} (b : Nat) (vs : List (Nat × List Schema)) (other : List Schema)
+    (hb : b = 8 ∨ b = 16) (hd : distinctNats (vs.map (·.1)) = true)
+    (hv : ∀ v, v ∈ vs → v.1 < 2 ^ b ∧ v.2.length < 2 ^ 63 ∧ ∀ s, s ∈ v.2 → Good (e s) (d s) (K s) (nr s))
+    (hol : other.length < 2 ^ 63) (ho : ∀ s, s ∈ other → Good (e s) (d s) (K s) (nr s)) :
+    Good (encSumOther e b vs other) (decSumOther d b vs other) [.array]
+      ((∀ v, v ∈ vs → ∀ s, s ∈ v.2 → nr s) ∧ (∀ s, s ∈ other → nr s)) := by
+  intro v it hr he
+  cases v <;> simp only [encSumOther] at he <;> try (simp at he; done)
+  case variant pos fields =>
+    split at he
+    · -- a listed variant: as `sumFixed`
+      obtain ⟨w, t, v', dd, ss, nn⟩ := good_sumFixed b vs hb hd hv (.variant pos fields) it hr he
+      refine ⟨w, t, v', ?_, ss, fun x => nn x.1⟩
+      -- the two decoders agree whenever the variant number is listed
+      cases hg : vs[pos]? with
+      | none => simp [encSumFixed, hg] at he
+      | some q =>
+        obtain ⟨n, fs⟩ := q
+        simp only [encSumFixed, hg, Option.map_eq_some_iff] at he
+        obtain ⟨xs, _, rfl⟩ := he
+        have hn := (hv (n, fs) (List.mem_of_getElem? hg)).1
+        simp only at hn
+        have hn64 : n < 2 ^ 64 := by rcases hb with rfl | rfl <;> omega
+        have hfv := findVariant_get vs 0 pos n fs hd hg
+        simp only [Nat.zero_add] at hfv
+        simp only [decSumFixed, mkArray, minHead_major, mkUInt_uint n hn64, hn, hfv, if_true] at dd
+        simp [decSumOther, mkArray, minHead_major, mkUInt_uint n hn64, hn, hfv, dd]
+    · split at he
+      · rename_i hpos
+        subst hpos
+        cases fields with
+        | nil => simp at he
+        | cons f0 rest =>
+          cases f0 <;> simp only at he <;> try (simp at he; done)
+          case nat x =>
+            split at he
+            · rename_i hx
+              simp only [Option.map_eq_some_iff] at he
+              obtain ⟨xs, hz, rfl⟩ := he
+              simp only [Value.rawFree, rawFreeList, Bool.and_eq_true] at hr
+              obtain ⟨w, hl, ws, dd, ss, nn⟩ := zipOpt_good other ho rest xs (by simpa [Value.rawFree] using hr.2) hz
+              have hx64 : x < 2 ^ 64 := by rcases hb with rfl | rfl <;> omega
+              have hfn := findVariant_none vs 0 x hx.2
+              refine ⟨mkArray_wf _ (by simp; omega) (by simp [wfList, mkUInt_wf x hx64, w]), by simp [mkArray_typeOf],
+                .variant vs.length (.nat x :: ws), ?_, by simp [Value.strip, stripList, ss], fun h => by rw [nn h.2]⟩
+              simp [decSumOther, mkArray, minHead_major, mkUInt_uint x hx64, hx.1, hfn, dd]
+            · simp at he
+      · simp at he
+
 end PallasVerif.Schema
